@@ -125,12 +125,26 @@ def run(cfg, V):
                 acc = f if e[i] > 0 else 1.0 / f
             else:
                 acc = acc * f if e[i] > 0 else acc / f
-        s = acc * x if False else acc
+        s = acc
         q = s.GetQuantity()
         present = [i for i in order if e[i] != 0]
+        # the same factors multiplied in the REVERSE order must render in their own order (no sharing between permutations)
+        racc = None
+        for i in reversed(order):
+            if e[i] == 0:
+                continue
+            f = _power(Scalar(1.0, leaves[i][0]), e[i])
+            racc = (f if e[i] > 0 else 1.0 / f) if racc is None else (racc * f if e[i] > 0 else racc / f)
+        rq = racc.GetQuantity()
+        # the quantity re-obtained from its own composing units / categories (list form) is the same quantity
+        from barril.units import ObtainQuantity
+
+        cu, cc = q.GetComposingUnits(), q.GetComposingCategories()
+        again = ObtainQuantity(list(cu), list(cc)) if not isinstance(cu, str) else ObtainQuantity(cu, cc)
         arr = Array.CreateWithQuantity(q, [s.GetValue(), s.GetValue()])
         return {"unit": q.GetUnit(), "cat": q.GetCategory(), "qt": q.GetQuantityType(), "name": q.GetUnitName(), "joined": tuple(q.GetComposingUnitsJoiningExponents()),
-                "order": [(leaves[i][0], leaves[i][1], leaves[i][2], e[i]) for i in present], "repr": repr(s), "str": str(s), "arr_repr": repr(arr), "arr_str": str(arr),
+                "order": [(leaves[i][0], leaves[i][1], leaves[i][2], e[i]) for i in present], "rev": (rq.GetUnit(), rq.GetCategory(), rq.GetUnitName()),
+                "again": (again.GetUnit(), again.GetCategory(), again.GetQuantityType(), again == q), "repr": repr(s), "str": str(s), "arr_repr": repr(arr), "arr_str": str(arr),
                 "formatted": s.GetFormatted()}
     # repeated quantity type under two categories
     a, b, c = cfg["e"]
@@ -173,6 +187,11 @@ def props(cfg, T, obs):
         P.append(("category string lists every factor with its exponent (' * ', one ' / ')", obs["cat"] == ref_makestr([(c, e) for _u, c, _n, e in od])))
         P.append(("quantity type string likewise", obs["qt"] == ref_makestr([(c, e) for _u, c, _n, e in od])))
         P.append(("unit name string likewise", obs["name"] == ref_makestr([(n, e) for _u, _c, n, e in od])))
+        rod = list(reversed(od))
+        P.append(("the same factors multiplied in the reverse order render in their own order", obs["rev"] == (ref_units([(u, e) for u, _c, _n, e in rod]),
+                                                                                                              ref_makestr([(c, e) for _u, c, _n, e in rod]),
+                                                                                                              ref_makestr([(n, e) for _u, _c, n, e in rod]))))
+        P.append(("re-obtaining the quantity from its composing units and categories gives the same strings", obs["again"] == (obs["unit"], obs["cat"], obs["qt"], True)))
         u = obs["unit"]
         P.append(("repr/str/GetFormatted of Scalar and Array show the unit", ("'%s'" % u) in obs["repr"] and obs["str"].endswith("[%s]" % u) and obs["formatted"].endswith("[%s]" % u)
                   and obs["arr_repr"].endswith("%s)" % u) and obs["arr_str"].endswith("[%s]" % u)))
